@@ -39,7 +39,7 @@ def gen(ctx, n):
         if twin:
             steps.append(stim("RecvRequest", "c5", tidOf="c1", msg={"isReq": True, "kind": "New", "tid": 0, "pull": rng.random() < 0.5, "v": "v0", "base": "base", "sel": "s"}))
         L = rng.randint(8, 22)
-        idx = {"c1": 0, "c2": 0, "c3": 0, "c4": 0}
+        idx = {"c1": 0, "c2": 0, "c3": 0, "c4": 0, "c5": 0}
         for _ in range(L):
             c = rng.choice(["c1", "c1", "c2", "c2", "c3"] + (["c4"] if any(s["c"] == "c4" for s in steps) else []) + (["c5", "c5"] if twin else []))
             init = c in ("c1", "c3", "c4")
